@@ -203,15 +203,6 @@ impl InterfaceInner {
             return None;
         }
 
-        let (next_header, ip_payload) = if ipv6_repr.next_header == IpProtocol::HopByHop {
-            match self.process_hopbyhop(ipv6_repr, ipv6_packet.payload()) {
-                HopByHopResponse::Discard(e) => return e,
-                HopByHopResponse::Continue(next) => next,
-            }
-        } else {
-            (ipv6_repr.next_header, ipv6_packet.payload())
-        };
-
         if !self.has_ip_addr(ipv6_repr.dst_addr)
             && !self.has_multicast_group(ipv6_repr.dst_addr)
             && !ipv6_repr.dst_addr.is_loopback()
@@ -237,6 +228,17 @@ impl InterfaceInner {
             net_trace!("Rejecting IPv6 packet; no assigned address");
             return None;
         }
+
+        // The hop-by-hop options are only examined (and possibly answered with an ICMPv6
+        // Parameter Problem) for packets that are addressed to this interface.
+        let (next_header, ip_payload) = if ipv6_repr.next_header == IpProtocol::HopByHop {
+            match self.process_hopbyhop(ipv6_repr, ipv6_packet.payload()) {
+                HopByHopResponse::Discard(e) => return e,
+                HopByHopResponse::Continue(next) => next,
+            }
+        } else {
+            (ipv6_repr.next_header, ipv6_packet.payload())
+        };
 
         #[cfg(feature = "socket-raw")]
         let handled_by_raw_socket = self.raw_socket_filter(sockets, &ipv6_repr.into(), ip_payload);
